@@ -155,6 +155,7 @@ pub fn dispatch(cmd: &str, args: &[String]) -> i32 {
         "eval" => eval_cmd(args),
         "game-history" => game_history(args),
         "minimax" => minimax_cmd(args),
+        "newgame" => newgame_cmd(args),
         "movegen-small" => movegen_small(args),
         "mate-in-one" => mate_in_one(args),
         "position-cmd" => position_cmd(args),
@@ -722,6 +723,21 @@ fn position_cmd(args: &[String]) -> i32 {
         rep.distinct += 1;
         if rep.distinct % 25 == 1 { rep.sample(jstr(&cmd)); }
     }
+    // FEN fields: every position of the walk corpus (all right subsets, en-passant squares, both colours that the walks reach),
+    // written as a FEN with a counter pair and read back through the position command
+    for (i, p) in corpus(seed, games / 2, plies).iter().enumerate() {
+        let f = to_fen(p);
+        let parts: Vec<&str> = f.split(' ').collect();
+        let c = [(0u32, 1u32), (99, 300), (7, 1023)][i % 3];
+        let cmd = format!("position fen {} {} {} {} {} {}", parts[0], parts[1], parts[2], parts[3], c.0, c.1);
+        let crashed = std::panic::catch_unwind(std::panic::AssertUnwindSafe(|| fl.verif_handle_command(&cmd))).is_err();
+        rep.evals += 1;
+        let got = if crashed { "panic".to_string() } else { eng_pos_string(fl.verif_board()) };
+        if got != ref_pos_string(p) {
+            rep.violation = Some(format!("{{\"input\": {{\"cmd\": {}}}, \"real\": {}, \"expected\": {}}}", jstr(&cmd), jstr(&got), jstr(&ref_pos_string(p))));
+            return rep.finish();
+        }
+    }
     // startpos
     let sp = parse_fen(SPECIAL_FENS[0]).unwrap();
     let mut x = seed | 1;
@@ -941,5 +957,51 @@ fn movegen_small(args: &[String]) -> i32 {
         if t0.elapsed().as_secs() > secs { break 'outer; }
     } } } } }
     rep.sample(jstr(&format!("family A positions: {}, family B positions: {}", a_done, rep.distinct - a_done)));
+    rep.finish()
+}
+
+// ------------------------------------------------------------------------------------------------ C13
+/// C13 (bounded): depth-limited searches give the same (score, move, node count) in two engine instances (different random
+/// Zobrist keys), and after ucinewgame the engine answers exactly like a fresh one
+fn newgame_cmd(args: &[String]) -> i32 {
+    let seed = seed_arg(args);
+    let n = num_arg(args, "positions", 12);
+    let maxd = num_arg(args, "depth", 3) as u8;
+    let mut rep = Report::new("newgame", &format!("{} corpus positions (seed {}) x depth 1..{}: two engine instances with independent key draws agree on (score, move, nodes); an engine that played another game and received ucinewgame agrees with a fresh one", n, seed, maxd));
+    let positions: Vec<RPos> = corpus(seed, 30, 20).into_iter().filter(|p| p.sq.iter().filter(|x| x.is_some()).count() <= 14 && !legal_moves(p).is_empty()).take(n).collect();
+    // an engine with a past: a game, searches that filled every table, then ucinewgame
+    let mut used = Flounder::new();
+    used.verif_handle_command("position startpos moves e2e4 e7e5 g1f3 b8c6 f1c4 g8f6");
+    { let b = used.verif_board().clone(); used.verif_searcher().find_best_move(&b, 4, None); }
+    used.verif_handle_command("position fen r3k2r/p1ppqpb1/bn2pnp1/3PN3/1p2P3/2N2Q1p/PPPBBPPP/R3K2R w KQkq - 0 1");
+    { let b = used.verif_board().clone(); used.verif_searcher().find_best_move(&b, 3, None); }
+    used.verif_handle_command("ucinewgame");
+    for p in positions.iter() {
+        let fen = to_fen(p);
+        let cmd = format!("position fen {}", fen);
+        let mut a = Flounder::new();
+        let mut b = Flounder::new();
+        a.verif_handle_command(&cmd); b.verif_handle_command(&cmd); used.verif_handle_command(&cmd);
+        for d in 1..=maxd {
+            let ba = a.verif_board().clone();
+            let ra = a.verif_searcher().find_best_move(&ba, d, None); let na = a.verif_searcher().verif_nodes();
+            let rb = b.verif_searcher().find_best_move(&ba, d, None); let nb = b.verif_searcher().verif_nodes();
+            let ru = used.verif_searcher().find_best_move(&ba, d, None); let nu = used.verif_searcher().verif_nodes();
+            rep.evals += 1;
+            let show = |r: &(i32, Option<Move>), n: u64| format!("score {} move {} nodes {}", r.0, r.1.map(|m| m.to_algebraic()).unwrap_or("0000".into()), n);
+            if ra != rb || na != nb {
+                rep.violation = Some(format!("{{\"input\": {{\"fen\": {}, \"depth\": {}, \"what\": \"two fresh engines (independent key draws)\"}}, \"real\": {}, \"expected\": {}}}", jstr(&fen), d, jstr(&show(&rb, nb)), jstr(&show(&ra, na))));
+                return rep.finish();
+            }
+            if ra != ru || na != nu {
+                rep.violation = Some(format!("{{\"input\": {{\"fen\": {}, \"depth\": {}, \"what\": \"after a game, searches and ucinewgame vs fresh\"}}, \"real\": {}, \"expected\": {}}}", jstr(&fen), d, jstr(&show(&ru, nu)), jstr(&show(&ra, na))));
+                return rep.finish();
+            }
+        }
+        // the next position is a new game for all three
+        a.verif_handle_command("ucinewgame"); b.verif_handle_command("ucinewgame"); used.verif_handle_command("ucinewgame");
+        rep.distinct += 1;
+        if rep.distinct % 4 == 1 { rep.sample(jstr(&fen)); }
+    }
     rep.finish()
 }
